@@ -2,8 +2,9 @@ import Driver.Common
 import Driver.ObjFmt
 import Parsley.Model.Obj
 import Parsley.Model.Bin
+import Parsley.Model.CombP
 namespace Driver.C15
-open Parsley Parsley.Prim Parsley.Obj Driver
+open Parsley Parsley.Prim Parsley.Obj Parsley.CombP Driver
 
 /-- result of running one named parser: canonical value string, span, cursor -/
 abbrev Out := Res (Located String) × Nat
@@ -14,14 +15,78 @@ def conv {α : Type} (f : α → String) (r : Res (Located α) × Nat) : Out :=
   | (.err k, c) => (.err k, c)
   | (.panic p, c) => (.panic p, c)
 
+/-- canonical text of a combinator value: the nested located values with their spans RELATIVE to the
+    start of the outer value (so a faithful re-parse of the span prints the same text) -/
+class Rel (α : Type) where
+  rel : Nat → α → String
+
+instance : Rel UInt8 := ⟨fun _ v => toString v.toNat⟩
+instance : Rel UInt16 := ⟨fun _ v => toString v.toNat⟩
+instance : Rel Int := ⟨fun _ v => toString v⟩
+instance : Rel Unit := ⟨fun _ _ => "u"⟩
+instance {α : Type} [Rel α] : Rel (Located α) :=
+  ⟨fun b v => s!"{Rel.rel b v.val}@{(v.start : Int) - b}-{(v.stop : Int) - b}"⟩
+instance {α β : Type} [Rel α] [Rel β] : Rel (α × β) := ⟨fun b v => s!"({Rel.rel b v.1},{Rel.rel b v.2})"⟩
+instance {α β : Type} [Rel α] [Rel β] : Rel (Alt α β) :=
+  ⟨fun b v => match v with | .left x => s!"L{Rel.rel b x}" | .right y => s!"R{Rel.rel b y}"⟩
+instance {α : Type} [Rel α] : Rel (List α) := ⟨fun b l => "[" ++ ";".intercalate (l.map (Rel.rel b)) ++ "]"⟩
+
+def convRel {α : Type} [Rel α] (r : Res (Located α) × Nat) : Out :=
+  match r with
+  | (.ok v, c) => (.ok ⟨Rel.rel v.start v.val, v.start, v.stop⟩, c)
+  | (.err k, c) => (.err k, c)
+  | (.panic p, c) => (.panic p, c)
+
+/-- `AsciiChar::new_guarded(|c| *c == 'A')`, `… == 'B'`, `AsciiChar::new()` -/
+def cA : P UInt8 := chrP (some (· == 65))
+def cB : P UInt8 := chrP (some (· == 66))
+def cAny : P UInt8 := chrP none
+
+instance : Rel Obj := ⟨fun _ o => objSexp o⟩
+
+/-- `parse_pdf_obj` with a fresh context of depth bound 3 as a component parser: a hand-written parser
+    of the crate that does NOT put the cursor back when it fails (and whose span starts after the
+    leading whitespace) - it makes the restores done by the combinators themselves observable -/
+def objP : P Obj := fun s i => (parseObj ⟨0, 3⟩ s i).1
+
+/-- the composites of `prim_combinators.rs::test_combined` / `test_not` (generic model Model/CombP.lean),
+    two mixed ones over binary and token parsers, and two look-ahead ones (`lk…`) -/
+def runCmb (name : String) (s : Bytes) (i : Nat) : Option Out :=
+  match name with
+  | "seqAB" => some (convRel (seqP cA cB s i))
+  | "altAB" => some (convRel (altP cA cB s i))
+  | "starA" => some (convRel (starP cA s i))
+  | "starAny" => some (convRel (starP cAny s i))
+  | "notAltAB" => some (convRel (notP (altP cA cB) s i))
+  | "starSeqAB" => some (convRel (starP (seqP cA cB) s i))
+  | "starAltAB" => some (convRel (starP (altP cA cB) s i))
+  | "seqStarAStarB" => some (convRel (seqP (starP cA) (starP cB) s i))
+  | "altStarAStarB" => some (convRel (altP (starP cA) (starP cB) s i))
+  | "altSeqABSeqBA" => some (convRel (altP (seqP cA cB) (seqP cB cA) s i))
+  | "seqAltABAltBA" => some (convRel (seqP (altP cA cB) (altP cB cA) s i))
+  | "starU16Bv2" => some (convRel (starP (seqP (Bin.uint16P .big) (Bin.byteVecP 2)) s i))
+  | "seqIntWsn1" => some (convRel (seqP integerP (wsNoEOL true) s i))
+  | "lkAltObjAny" => some (convRel (altP objP cAny s i))
+  | "seqObjA" => some (convRel (seqP objP cA s i))
+  | "seqAObj" => some (convRel (seqP cA objP s i))
+  | "notObj" => some (convRel (notP objP s i))
+  | "starObj" => some (convRel (starP objP s i))
+  | "lkNotNotB" => some (convRel (notP (notP cB) s i))
+  | "lkAltSeqANotBA" => some (convRel (altP (seqP cA (notP cB)) cA s i))
+  | _ => none
+
 def endian (s : String) : Bin.Endian := if s.endsWith "le" then .little else .big
 
 /-- is this parser one of the token-level ones (failure must not move the cursor)? -/
 def tokenLevel (p : String) : Bool := !(p.startsWith "obj:" || p.startsWith "@obj:")
 
 /-- does the re-parse clause apply?  Scanners return a skip count whose span is the skipped
-    text (not a spelling of the value), so the clause is not applicable to them. -/
-def reparseApplies (p : String) : Bool := !(p.startsWith "scan:" || p.startsWith "@scan:")
+    text (not a spelling of the value), so the clause is not applicable to them.  Neither is it to the
+    two look-ahead composites `cmb:lk…` (positive look-ahead `Not(Not('B'))`, ordered choice whose first
+    branch looks ahead): for these the clause is FALSE by the semantics of PEG look-ahead, see
+    `Parsley.C15.reparse_fails_for_positive_lookahead`, `alt_reparse_needs_failTrunc`; all other clauses apply. -/
+def reparseApplies (p : String) : Bool :=
+  !(p.startsWith "scan:" || p.startsWith "@scan:" || p.startsWith "cmb:lk" || p.startsWith "@cmb:lk")
 
 /-- `BinaryScanner` over `ParseBuffer::scan` (empty tag: `windows(0)` panics) -/
 def scanP (tag : Bytes) : P Nat := fun s i =>
@@ -70,6 +135,11 @@ def runParser (p0 : String) (s : Bytes) (i : Nat) : Option Out :=
   | ["u16be"] | ["u16le"] => some (conv (fun v => toString v.toNat) (Bin.uint16P (endian p) s i))
   | ["u32be"] | ["u32le"] => some (conv (fun v => toString v.toNat) (Bin.uint32P (endian p) s i))
   | ["u64be"] | ["u64le"] => some (conv (fun v => toString v.toNat) (Bin.uint64P (endian p) s i))
+  | ["i8"] => some (conv (fun v => toString v.toInt) (Bin.int8P s i))
+  | ["i32be"] | ["i32le"] => some (conv (fun v => toString v.toInt) (Bin.int32P (endian p) s i))
+  | ["chr", "A"] => some (convRel (cA s i))
+  | ["chr", "any"] => some (convRel (cAny s i))
+  | ["cmb", name] => runCmb name s i
   | ["i16be"] | ["i16le"] => some (conv (fun v => toString v.toInt) (Bin.int16P (endian p) s i))
   | ["i64be"] | ["i64le"] => some (conv (fun v => toString v.toInt) (Bin.int64P (endian p) s i))
   | ["bv", n] =>
@@ -162,7 +232,28 @@ def alphabet : List UInt8 :=
 def parsers : List String :=
   ["wsn0", "wsn1", "wse0", "wse1", "comment", "bool", "null", "int", "real", "hex", "lit", "name",
    "op", "sc:0:0", "sc:1:1", "sc:2:0", "obj:3", "obj:1", "u8", "u16be", "u32le", "i64be", "bv:2",
-   "match:2525", "scan:25", "scan:3e3e"]
+   "match:2525", "scan:25", "scan:3e3e",
+   -- combinators over a component that does not restore the cursor itself
+   "cmb:lkAltObjAny", "cmb:seqObjA", "cmb:seqAObj", "cmb:notObj", "cmb:starObj"]
+
+/-- every binary parser (all widths, byte orders, signedness) and the byte vector -/
+def binParsers : List String :=
+  ["u8", "u16be", "u16le", "u32be", "u32le", "u64be", "u64le", "i8", "i16be", "i16le", "i32be", "i32le",
+   "i64be", "i64le", "bv:0", "bv:1", "bv:3"]
+
+/-- `AsciiChar` and the combinator composites -/
+def cmbParsers : List String :=
+  ["chr:A", "chr:any", "cmb:seqAB", "cmb:altAB", "cmb:starA", "cmb:starAny", "cmb:notAltAB", "cmb:starSeqAB",
+   "cmb:starAltAB", "cmb:seqStarAStarB", "cmb:altStarAStarB", "cmb:altSeqABSeqBA", "cmb:seqAltABAltBA",
+   "cmb:starU16Bv2", "cmb:seqIntWsn1", "cmb:lkNotNotB", "cmb:lkAltSeqANotBA"]
+
+/-- alphabet of the combinator cases: the two guarded letters, another letter, a non-ASCII byte,
+    a digit and a blank -/
+def cmbAlphabet : List UInt8 := [65, 66, 67, 0x80, 49, 32]
+
+def allStringsOver (al : List UInt8) : Nat → List Bytes
+  | 0 => [[]]
+  | n + 1 => (allStringsOver al n).flatMap fun t => al.map fun a => a :: t
 
 def tokens : List String :=
   ["true", "false", "null", "stream\n", "stream\r\n", "endstream", "endobj", "obj", "12", "-3", "+.5", "0.",
@@ -189,8 +280,24 @@ def gen (seed n : Nat) (tier : String) (emit : String → IO Unit) : IO Unit := 
   for len in List.range (maxLen + 1) do
     for s in allStrings len do
       emitAll emit s parsers
+  -- combinator composites and AsciiChar: exhaustive over their own alphabet, whole buffer and restricted view
+  let cmbLen := if tier == "thorough" then 5 else 4
+  for len in List.range (cmbLen + 1) do
+    for s in allStringsOver cmbAlphabet len do
+      emitAll emit s cmbParsers
+      if len ≥ 2 then emitAll emit s (cmbParsers.map ("@" ++ ·))
   -- sub-sampled next length
   let mut r := Rng.mk' seed
+  -- binary parsers, every width / byte order / signedness: random buffers of 0..9 bytes, every cursor,
+  -- whole buffer and restricted view
+  let nbin := if tier == "thorough" then 2000 else 150
+  for _ in List.range nbin do
+    let (len, r1) := r.nat 10
+    let (s, r2) := (List.range len).foldl (fun (acc : Bytes × Rng) _ =>
+      let (b, r') := acc.2.nat 256; (UInt8.ofNat b :: acc.1, r')) ([], r1)
+    r := r2
+    emitAll emit s binParsers
+    emitAll emit s (binParsers.map ("@" ++ ·))
   let extra := if tier == "thorough" then 60000 else 3000
   for _ in List.range extra do
     let (s, r1) := (List.range (maxLen + 1)).foldl (fun (acc : Bytes × Rng) _ =>
